@@ -491,6 +491,16 @@ impl Engine for AccessSim {
 
 fn lang_candidate(rng: &mut Rng, a: &ArgSpec) -> B {
     let flip_case = |s: &str, rng: &mut Rng| -> String { s.chars().map(|c| if rng.coin() { c.to_ascii_uppercase() } else { c.to_ascii_lowercase() }).collect() };
+    // ASCII case differs in bit 0x20 -- but only for letters: `-` vs CR, `_` vs DEL, `0` vs DLE are different
+    // characters, not case variants
+    let flip_bit5_of_non_letter = |s: &str, rng: &mut Rng| -> B {
+        let mut b = s.as_bytes().to_vec();
+        let idx: Vec<usize> = b.iter().enumerate().filter(|(_, c)| c.is_ascii() && !c.is_ascii_alphabetic()).map(|(i, _)| i).collect();
+        if let Some(i) = rng.pick_opt(&idx) {
+            b[*i] ^= 0x20;
+        }
+        B(b)
+    };
     match &a.parser {
         ValParser::I64 { lo, hi } => {
             let (lo, hi) = (*lo as i128, *hi as i128);
@@ -528,7 +538,8 @@ fn lang_candidate(rng: &mut Rng, a: &ArgSpec) -> B {
         }
         ValParser::EnumVp => {
             let base = rng.pick(SIM_ENUM_LANGUAGE).0.to_string();
-            match rng.below(6) {
+            match rng.below(7) {
+                5 => flip_bit5_of_non_letter(&base, rng),
                 0 => B::s(&flip_case(&base, rng)),
                 1 => B::s(&base.to_uppercase()),
                 2 => B::s(&format!("{base}x")),
@@ -541,12 +552,13 @@ fn lang_candidate(rng: &mut Rng, a: &ArgSpec) -> B {
         ValParser::Possible(pvs) => {
             let p = rng.pick(pvs);
             let base = if !p.aliases.is_empty() && rng.coin() { p.aliases[0].clone() } else { p.name.clone() };
-            match rng.below(6) {
+            match rng.below(7) {
                 0 => B::s(&flip_case(&base, rng)),
                 1 => B::s(&base.to_uppercase()),
                 2 => B::s(&base[..base.len() - 1]),
                 3 => B::s(&format!("{base}x")),
                 4 => B::s(""),
+                5 => flip_bit5_of_non_letter(&base, rng),
                 _ => B::s(&base),
             }
         }
